@@ -449,13 +449,9 @@ func isDupDetector(p *Prog, fn *ssa.Function) bool {
 		return false
 	}
 	fl := NewFlow(p, fn)
-	hit, upd := false, false
+	hit, upd := false, signerRecorded(fl)
 	eachInstr(fn, func(in ssa.Instruction) {
 		switch x := in.(type) {
-		case *ssa.MapUpdate:
-			if strings.Contains(fl.K.Key(x.Key), ".Signer(") {
-				upd = true
-			}
 		case *ssa.Return:
 			if isBoolConst(retValue(x, 0), true) {
 				if trueOf(fl.At(x), func(k string) bool { return strings.Contains(k, ".Signer(") && strings.HasSuffix(k, "]#1") }) {
@@ -469,17 +465,24 @@ func isDupDetector(p *Prog, fn *ssa.Function) bool {
 	return hit && upd
 }
 
+// signerRecorded: fl.Fn records an entry's Signer() as a key of a map, in place or through a
+// private helper of the package (a set type's insert method) that receives it.
+func signerRecorded(fl *Flow) bool {
+	for _, d := range deepInstrs(fl, func(in ssa.Instruction) bool { _, ok := in.(*ssa.MapUpdate); return ok }, 0) {
+		if strings.Contains(d.Key(d.Instr.(*ssa.MapUpdate).Key), ".Signer(") {
+			return true
+		}
+	}
+	return false
+}
+
 // inlineSeenMap: in fl.Fn, a comma-ok lookup seen[sig.Signer()] whose hit edge cannot
 // reach an accepting exit, and a matching update.
 func inlineSeenMap(fl *Flow) (bool, string) {
-	upd := false
+	upd := signerRecorded(fl)
 	var hitIf []*ssa.If
 	eachInstr(fl.Fn, func(in ssa.Instruction) {
 		switch x := in.(type) {
-		case *ssa.MapUpdate:
-			if strings.Contains(fl.K.Key(x.Key), ".Signer(") {
-				upd = true
-			}
 		case *ssa.If:
 			k := fl.K.Key(x.Cond)
 			if strings.Contains(k, ".Signer(") && strings.HasSuffix(k, "]#1") {
